@@ -312,3 +312,47 @@ def child_enumeration(ctx):
             ok = isinstance(a, ast.Call) and len(a.args) == 1 and is_name(a.args[0], item)
             ctx.ob(ok, u, 'iterated children are all items of iterate(item): %s' % norm(c))
     ctx.floor(8)
+
+
+def _is_predicate_class(p, u, name_node):
+    """a registered type whose isinstance() is decided by a hook (ABC ``__subclasshook__`` or a
+    metaclass ``__instancecheck__``) rather than by inheritance"""
+    d = p.static(u, name_node)
+    if d.kind != 'class':
+        return False
+    k = d.cls
+    if k.defines('__subclasshook__'):
+        return True
+    for b in k.node.bases:
+        if isinstance(b, ast.Call) and is_name(b.func):
+            md = p.static(u, b.func)
+            if md.kind == 'class' and md.cls.defines('__instancecheck__'):
+                return True
+    return False
+
+
+@rule('C14.9')
+def default_registration_order(ctx):
+    """the type tree of an op is searched in registration order, first isinstance match wins:
+    among the default registrations of one op every concrete class must come before the
+    predicate (duck) types, or a dict / list subclass with a __dict__ is enumerated as a plain
+    object"""
+    p = ctx.program
+    u = ctx.unit('core.TargetRegistry._register_default_types')
+    seq = {}
+    n = 0
+    for st in u.node.body:
+        for c in [x for x in ast.walk(st) if isinstance(x, ast.Call)]:
+            if isinstance(c.func, ast.Attribute) and c.func.attr == 'register' and c.args and is_name(c.func.value, u.params[0]):
+                for k in c.keywords:
+                    if k.arg:
+                        seq.setdefault(k.arg, []).append((c, _is_predicate_class(p, u, c.args[0])))
+                        n += 1
+    ctx.require(n >= 6, '_register_default_types: default registrations not found (%d)' % n)
+    for op, regs in sorted(seq.items()):
+        first_pred = next((i for i, (_, pred) in enumerate(regs) if pred), None)
+        late = [norm(c) for i, (c, pred) in enumerate(regs) if first_pred is not None and i > first_pred and not pred]
+        ctx.ob(not late, u, "default '%s' registrations list concrete classes before predicate types: %s"
+               % (op, [src(c.args[0]) for c, _ in regs]),
+               '' if not late else 'registered after a predicate type: %s -- their subclasses match the predicate first' % late)
+    ctx.floor(3)
